@@ -551,20 +551,54 @@ func suiteBytes(r *Rng, n int, thorough bool, o *Out) {
 			}
 		}
 		o.emit(lst("unm", "doc", ssx, sxDocSke(doc)), obsD, pvD)
-		// NewRequest carrying that body (verdict only: its URL part is C07)
+		// NewRequest carrying that body: URL part through NewSimpleURL/NewURL, body through
+		// UnmarshalDocument for POST and PATCH
 		if r.chance(1, 3) {
-			req, _ := http.NewRequest([]string{"POST", "PATCH", "GET"}[r.IntN(3)], "/"+ts[0].typ.Name, bytes.NewReader(doc))
-			var jr *jsonapi.Request
-			var rerr error
-			p, msg := guard(func() { jr, rerr = jsonapi.NewRequest(req, s) })
-			pv := "ok"
-			switch {
-			case p:
-				pv = "FAIL[C05]:C05 NewRequest panicked: " + msg
-			case (rerr != nil) == (jr != nil):
-				pv = "FAIL[C05]:C05 NewRequest result/error"
+			method := []string{"POST", "PATCH", "GET", "DELETE", "post"}[r.IntN(5)]
+			tn := ts[r.IntN(len(ts))].typ.Name
+			paths := []string{"/" + tn, "/" + tn + "/1", "/" + tn + "?sort=id", "/" + tn + "?page%5Bsize%5D=2&page%5Bnumber%5D=1",
+				"/nope", "/" + tn + "?fields%5B" + tn + "%5D=id", "/" + tn + "/1/relationships/nope", "/" + tn + "?include=nope", "/", "/" + tn + "?filter=lbl"}
+			rawURL := paths[r.IntN(len(paths))]
+			req, herr := http.NewRequest(method, rawURL, bytes.NewReader(doc))
+			if herr == nil {
+				var jr *jsonapi.Request
+				var rerr error
+				p, msg := guard(func() { jr, rerr = jsonapi.NewRequest(req, s) })
+				obs, pv := "", "ok"
+				switch {
+				case p:
+					obs, pv = "panic", "FAIL[C05]:C05 NewRequest panicked: "+msg
+				case (rerr != nil) == (jr != nil):
+					obs, pv = "both", "FAIL[C05]:C05 NewRequest returned neither or both of a request and an error"
+				case rerr != nil:
+					obs = "err"
+				default:
+					docPart := "nodoc"
+					if jr.Doc != nil {
+						docPart = sxDocResult(jr.Doc)
+						var all []jsonapi.Resource
+						if col, ok := jr.Doc.Data.(jsonapi.Collection); ok {
+							for i := 0; i < col.Len(); i++ {
+								all = append(all, col.At(i))
+							}
+						} else if res, ok := jr.Doc.Data.(jsonapi.Resource); ok {
+							all = append(all, res)
+						}
+						all = append(all, jr.Doc.Included...)
+						for _, res := range all {
+							if m := conforms(res, s); m != "" {
+								pv = "FAIL[C05]:C05 request document: " + m
+							}
+						}
+					}
+					if (jr.Doc != nil) != (method == "POST" || method == "PATCH") {
+						pv = "FAIL[C05]:C05 request document present for " + method
+					}
+					obs = "ok " + lst(hx(jr.Method), sxURL(jr.URL), docPart)
+				}
+				o.stat("request." + obs[:2])
+				o.emit(lst("request", hx(method), ssx, sxParsed(rawURL), sxDocSke(doc)), obs, pv)
 			}
-			o.emit(lst("unm", "request-verdict-only"), "-", pv)
 		}
 		// identifiers
 		if r.chance(1, 3) {
